@@ -78,11 +78,11 @@ def finishedArgument (isRange hasCount : Bool) (ps : PState) (st : AP) (isInArra
   | .rangeGotBothLimits lower upper =>
       if lower > upper then .error (.error "Invalid bit-range: lower limit larger than upper limit")
       else if !isInArray && !isRange then .error (.error "bit requires an inclusive range")
-      else if upper + 1 ≥ 2 ^ 64 then .error (.macroPanic "attempt to add with overflow")
+      else if upper + 1 ≥ 2 ^ 64 then .error (.error "Invalid bit-range: the upper limit is too large")   -- `checked_add` (D4)
       else .ok { ps with ranges := ps.ranges ++ [⟨lower, upper + 1 - lower⟩] }
   | .rangeGotLowerLimit lower =>
       if isRange && !isInArray then .error (.error "bits requires a single bit")
-      else if lower + 1 ≥ 2 ^ 64 then .error (.macroPanic "attempt to add with overflow")
+      else if lower + 1 ≥ 2 ^ 64 then .error (.error "Invalid bit index: the value is too large")   -- `checked_add` (D4)
       else .ok { ps with ranges := ps.ranges ++ [⟨lower, 1⟩] }
   | .readWrite => .ok { ps with provideGetter := true, provideSetter := true }
   | .read => .ok { ps with provideGetter := true }
@@ -243,8 +243,10 @@ def firstError (baseDataSize : Nat) (ti : TyInfo) (count : Option Nat) (ps : PSt
     if ranges.length = 1 ∧ n > strideOf ps n then some (.error "Field is larger than the stride")
     else if ranges.length ≠ 1 ∧ ps.indexedStride = none then
       some (.error "Field is declared as non-contiguous and array, so it needs a stride")
-    else if indexedCount = 0 then some (.macroPanic "attempt to subtract with overflow")
-    else if (indexedCount - 1) * strideOf ps n + maxEnd ranges ≥ 2 ^ 64 then some (.macroPanic "attempt to multiply/add with overflow")
+    -- `indexed_count.saturating_sub(1).checked_mul(stride).and_then(checked_add(max_end)).unwrap_or(usize::MAX)` (D4):
+    -- a count of 0 is caught by one of the next two checks, an overflow by the bound check (usize::MAX > base)
+    else if indexedCount = 0 then some (.error "Field is declared as array, but with fewer than 2 elements (or out of bounds)")
+    else if (indexedCount - 1) * strideOf ps n + maxEnd ranges ≥ 2 ^ 64 then some (.error "Array-field requires more bits than the bitfield has")
     else if (indexedCount - 1) * strideOf ps n + maxEnd ranges > baseDataSize then
       some (.error "Array-field requires more bits than the bitfield has")
     else if indexedCount < 2 then some (.error "Field is declared as array, but with fewer than 2 elements")
